@@ -36,7 +36,7 @@ ASSUMPTIONS = ["ambiguous default spellings (a-b, x[1], 1-1) are judged on exact
 STATIC = ["hello", "hello world", "7", "2.5", "-3", "-0.5", "2020-01-31", "12:30:00", "2020-01-31T12:30:00", "yes", "a_b", "Ünïcode", "0",
           "-.5", ".25", "-.125", "5.", "-7.", "007", "1000000"]
 DYNAMIC = ["now()", "today()", "uuid()", "1 + 2", "3 * 4", "7 div 2", "7 mod 2", "concat('a', 'b')", "${src}", "${src} + 1", "if(${src} = '', 'x', 'y')",
-           "once(random())", "'a' | 'b'", "string-length('abc')", "${last-saved#src}"]
+           "once(random())", "'a' | 'b'", "string-length('abc')", "${last-saved#src}", "../src[1]", "/data/src[. = 'a']"]
 AMBIG = ["a-b", "1-1", "x[1]", "( x )", "a - b", "2020-01-31 extra", "jr://images/x.png"]
 TYPES = ["text", "integer", "decimal", "date", "dateTime", "time", "note", "hidden", "calculate", "select_one l1", "select_multiple l1", "geopoint", "barcode", "image", "range",
          "audio", "video", "file", "trigger", "acknowledge", "geotrace", "rank l1"]  # the other upload types: their static default (a file name) is literal content, no jr://images/ prefix
@@ -59,6 +59,8 @@ def classify(text, qtype):
         return "static"
     if "${" in t or re.search(r"[A-Za-z_][\w\-.]*\(", t) or re.search(r" (\+|\*|div|mod) ", t) or "|" in t:
         return "dynamic"
+    if re.match(r"(\.\./|\./|/)[\w/.-]*\[[^\]]*\]", t):
+        return "dynamic"  # a location path with a predicate (the documentation: "contains brackets")
     return None
 
 
